@@ -1,70 +1,26 @@
 (* Line protocol around the extracted models.
    request : <op> <nz> z_1 .. z_nz <nq> q_1 .. q_nq      (z decimal int, q = [-]hexnum/hexden)
-   reply   : OK q_1 .. q_k   |   ERR <int>
-   Numbers are converted bit by bit to Coq's positive/Z; no arithmetic is done here. *)
+   reply   : OK q_1 .. q_k   |   ERR <hex int>
+   Z / positive are extracted to zarith big integers by the standard library's ExtrOcamlZBigInt
+   (Big_int_Z.big_int = Z.t); number conversion is zarith's own parser/printer, no arithmetic is done here. *)
 
-let rec pos_of_bits (s : string) (i : int) (acc : Model.positive) : Model.positive =
-  (* acc holds the bits read so far (msb first) *)
-  if i >= String.length s then acc
-  else pos_of_bits s (i + 1) (if s.[i] = '1' then Model.XI acc else Model.XO acc)
-
-let bits_of_hex (h : string) : string =
-  let b = Buffer.create (4 * String.length h) in
-  String.iter (fun c ->
-    let v = match c with
-      | '0'..'9' -> Char.code c - 48 | 'a'..'f' -> Char.code c - 87
-      | 'A'..'F' -> Char.code c - 55 | _ -> failwith "hex" in
-    for k = 3 downto 0 do Buffer.add_char b (if (v lsr k) land 1 = 1 then '1' else '0') done) h;
-  let s = Buffer.contents b in
-  (* strip leading zeros *)
-  let n = String.length s in
-  let i = ref 0 in
-  while !i < n && s.[!i] = '0' do incr i done;
-  String.sub s !i (n - !i)
-
-let pos_of_hex (h : string) : Model.positive option =
-  let s = bits_of_hex h in
-  if s = "" then None else Some (pos_of_bits s 1 Model.XH)
-
-let z_of_hex (h : string) : Model.z =
+let z_of_hex (h : string) : Z.t =
   let neg = String.length h > 0 && h.[0] = '-' in
   let h' = if neg then String.sub h 1 (String.length h - 1) else h in
-  match pos_of_hex h' with
-  | None -> Model.Z0
-  | Some p -> if neg then Model.Zneg p else Model.Zpos p
+  let v = Z.of_string ("0x" ^ h') in
+  if neg then Z.neg v else v
 
-let z_of_dec (d : string) : Model.z =
-  let n = int_of_string d in
-  z_of_hex (if n < 0 then Printf.sprintf "-%x" (-n) else Printf.sprintf "%x" n)
-
-let rec bits_of_pos (p : Model.positive) (acc : char list) : char list =
-  match p with
-  | Model.XH -> '1' :: acc
-  | Model.XO q -> bits_of_pos q ('0' :: acc)
-  | Model.XI q -> bits_of_pos q ('1' :: acc)
-
-let hex_of_pos (p : Model.positive) : string =
-  let bits = bits_of_pos p [] in
-  let n = List.length bits in
-  let pad = (4 - n mod 4) mod 4 in
-  let arr = Array.of_list (List.init pad (fun _ -> '0') @ bits) in
-  let m = Array.length arr / 4 in
-  String.init m (fun i ->
-    let v = ref 0 in
-    for k = 0 to 3 do v := !v * 2 + (if arr.(4 * i + k) = '1' then 1 else 0) done;
-    "0123456789abcdef".[!v])
-
-let hex_of_z (x : Model.z) : string =
-  match x with Model.Z0 -> "0" | Model.Zpos p -> hex_of_pos p | Model.Zneg p -> "-" ^ hex_of_pos p
+let hex_of_z (x : Z.t) : string = Z.format "%x" x
 
 let q_of_string (s : string) =
   match String.index_opt s '/' with
-  | None -> Model.rat_make (z_of_hex s) Model.XH
+  | None -> Model.rat_make (z_of_hex s) Z.one
   | Some i ->
     let n = String.sub s 0 i and d = String.sub s (i + 1) (String.length s - i - 1) in
-    (match pos_of_hex d with None -> failwith "zero denominator" | Some p -> Model.rat_make (z_of_hex n) p)
+    let dz = z_of_hex d in
+    if Z.sign dz <= 0 then failwith "non-positive denominator" else Model.rat_make (z_of_hex n) dz
 
-let string_of_q q = hex_of_z (Model.rat_num q) ^ "/" ^ hex_of_pos (Model.rat_den q)
+let string_of_q q = hex_of_z (Model.rat_num q) ^ "/" ^ hex_of_z (Model.rat_den q)
 
 let coq_string_of (s : string) =
   let bit c k = (Char.code c lsr k) land 1 = 1 in
@@ -82,18 +38,19 @@ let () =
       let line = input_line stdin in
       let toks = List.filter (fun s -> s <> "") (String.split_on_char ' ' line) in
       (match toks with
-       | [] -> print_string "ERR -998\n"
+       | [] -> print_string "ERR -3e6\n"
        | op :: rest ->
          (try
             let (nz, rest) = match rest with x :: t -> (int_of_string x, t) | [] -> failwith "nz" in
             let (zs, rest) = take nz rest in
             let (nq, rest) = match rest with x :: t -> (int_of_string x, t) | [] -> failwith "nq" in
             let (qs, _) = take nq rest in
-            let r = Model.run (coq_string_of op) (List.map z_of_dec zs) (List.map q_of_string qs) in
+            let r = Model.run (coq_string_of op) (List.map Z.of_string zs) (List.map q_of_string qs) in
             (match r with
              | Model.Ok l -> print_string ("OK " ^ String.concat " " (List.map string_of_q l) ^ "\n")
              | Model.Err c -> print_string ("ERR " ^ hex_of_z c ^ "\n"))
-          with Failure m -> print_string ("FAIL " ^ m ^ "\n")));
+          with Failure m -> print_string ("FAIL " ^ m ^ "\n")
+             | Stack_overflow -> print_string "FAIL stack_overflow\n"));
       flush stdout
     done
   with End_of_file -> ()
